@@ -3326,8 +3326,11 @@ class sptensor:
             if other == 0:
                 nansubsidx = tt_setdiff_rows(self.allsubs(), newsubs)
                 nansubs = self.allsubs()[nansubsidx]
+                nanvals = np.nan * np.ones((nansubs.shape[0], 1))
+                if self.nnz == 0:
+                    return ttb.sptensor(nansubs, nanvals, self.shape)
                 newsubs = np.vstack((newsubs, nansubs))
-                newvals = np.vstack((newvals, np.nan * np.ones((nansubs.shape[0], 1))))
+                newvals = np.vstack((newvals, nanvals))
             return ttb.sptensor(newsubs, newvals, self.shape)
 
         # Tensor divided by a tensor
